@@ -450,8 +450,38 @@ func (m *pmodel) ownRecordPtr(v ssa.Value, f *frame, p *pstate, d int) tri {
 				return m.ownRecordPtr(f.args[i].v, f.args[i].f, p, d+1)
 			}
 		}
+	case *ssa.Call:
+		// result of an inlined helper (a get-or-create accessor of the complaints map)
+		if rv, ok := p.retvals[m.valKey(x, f)]; ok && len(rv) == 1 && rv[0].v != nil {
+			return m.ownRecordPtr(rv[0].v, rv[0].f, p, d+1)
+		}
 	}
 	return tU
+}
+
+// resolvePtr follows a pointer value through the phis, parameters and inlined-call results of the current path.
+func (m *pmodel) resolvePtr(v ssa.Value, f *frame, p *pstate, d int) ssa.Value {
+	if d > 6 {
+		return v
+	}
+	switch x := v.(type) {
+	case *ssa.Phi:
+		if j, ok := p.phiEdge[m.valKey(x, f)]; ok {
+			return m.resolvePtr(x.Edges[j], f, p, d+1)
+		}
+	case *ssa.Parameter:
+		if f != nil {
+			i := paramIndex(f.fn, x)
+			if i >= 0 && i < len(f.args) && f.args[i].v != nil {
+				return m.resolvePtr(f.args[i].v, f.args[i].f, p, d+1)
+			}
+		}
+	case *ssa.Call:
+		if rv, ok := p.retvals[m.valKey(x, f)]; ok && len(rv) == 1 && rv[0].v != nil {
+			return m.resolvePtr(rv[0].v, rv[0].f, p, d+1)
+		}
+	}
+	return v
 }
 
 func (m *pmodel) isComplaintsMap(v ssa.Value) bool {
@@ -841,6 +871,15 @@ func (m *pmodel) doStore(x *ssa.Store, f *frame, p *pstate) []*pstate {
 			}
 			p.st[k] = int(t)
 			p.effects = append(p.effects, Effect{"store", fmt.Sprintf("own record: %s:=%s", fld.Name(), t), x.Pos(), fnKey(f.fn)})
+		} else if _, isLit := fa.X.(*ssa.Alloc); !isLit {
+			// a record of another participant (or of unknown class): one that was looked up, or one that a
+			// get-or-create helper has just installed on this path
+			t := m.evalBool(x.Val, f, p, nil)
+			kind := "record"
+			if _, fresh := m.resolvePtr(fa.X, f, p, 0).(*ssa.Alloc); fresh {
+				kind = "fresh record"
+			}
+			p.effects = append(p.effects, Effect{"store", fmt.Sprintf("%s: %s:=%s", kind, fld.Name(), t), x.Pos(), fnKey(f.fn)})
 		}
 		return nil
 	}
